@@ -424,115 +424,7 @@ func checkC15(p *Prog, res *Result, tier string) {
 	res.rule("C15-R4", "nobody else resets the counters (C02-R3)", 3)
 
 	// ---- R1 ----
-	var cb *ssa.Function
-	for _, f := range p.AllFuncs {
-		if isLeaderStartCallback(p, f) {
-			cb = f
-		}
-	}
-	if cb == nil {
-		res.und("C15-R1", "leader-start callback", "-", "not found")
-	} else {
-		var setCur *ssa.Call
-		for _, c := range callsIn(cb) {
-			if cc, ok := c.(*ssa.Call); ok && r.is(c, r.BSetCur) {
-				setCur = cc
-			}
-		}
-		// leader flag writes: stores / atomic stores of a non-zero constant to a field of the election type inside the callback
-		var flagWrites []ssa.Instruction
-		for _, b := range cb.Blocks {
-			for _, ins := range b.Instrs {
-				switch x := ins.(type) {
-				case *ssa.Store:
-					if fa, ok := x.Addr.(*ssa.FieldAddr); ok && !isFreshObject(fa.X) {
-						if k, ok := x.Val.(*ssa.Const); ok && k.Value != nil && k.Value.String() != "false" && k.Value.String() != "0" {
-							flagWrites = append(flagWrites, x)
-						}
-					}
-				case *ssa.Call:
-					if n, ok := isAtomicCall(x); ok && strings.HasPrefix(n, "Store") {
-						if k, ok := x.Common().Args[1].(*ssa.Const); ok && k.Value != nil && k.Value.String() != "0" && k.Value.String() != "false" {
-							flagWrites = append(flagWrites, x)
-						}
-					}
-				}
-			}
-		}
-		construct := funcName(cb) + ": SetCurrentRevision before the leader flag"
-		switch {
-		case setCur == nil:
-			res.bad("C15-R1", construct, p.pos(cb.Pos()), "the leader-start callback never seeds the revision counters: the new leader hands out revisions from its stale counter")
-		case len(flagWrites) == 0:
-			res.und("C15-R1", construct, p.pos(cb.Pos()), "leader flag write not found in the callback")
-		default:
-			bad := false
-			for _, fw := range flagWrites {
-				if !instrDominates(setCur, fw) {
-					bad = true
-					res.bad("C15-R1", construct, p.pos(fw.Pos()), "the leader flag is raised before (or without) SetCurrentRevision: a write admitted in between is stamped with a revision below what the store already contains")
-				}
-			}
-			if !bad {
-				res.ok("C15-R1", construct, p.pos(setCur.Pos()), fmt.Sprintf("dominates %d flag write(s)", len(flagWrites)))
-			}
-		}
-		// started-leading hook: dynamic call of a func-typed field, must come after SetCurrentRevision
-		if setCur != nil {
-			construct = funcName(cb) + ": SetCurrentRevision before the started-leading hook"
-			n, bad := 0, false
-			for _, c := range callsIn(cb) {
-				if c.Common().StaticCallee() != nil || c.Common().IsInvoke() {
-					continue
-				}
-				if ld, ok := resolve(c.Common().Value).(*ssa.UnOp); ok {
-					if _, ok := ld.X.(*ssa.FieldAddr); ok {
-						n++
-						if !instrDominates(setCur, c.(ssa.Instruction)) {
-							bad = true
-							res.bad("C15-R1", construct, p.pos(c.Pos()), "the started-leading hook (which opens the node for clients) runs before the revision counters are seeded")
-						}
-					}
-				}
-			}
-			if !bad && n > 0 {
-				res.ok("C15-R1", construct, p.pos(setCur.Pos()), "hook call dominated by SetCurrentRevision")
-			}
-			// provenance of v
-			construct = funcName(cb) + ": seeded revision is parsed from Describe()"
-			okProv := false
-			if c, idx, ok := extractOf(argForSigParam(setCur, 0)); ok {
-				if g := c.Common().StaticCallee(); g != nil && g.Blocks != nil {
-					all, n := true, 0
-					for _, b := range g.Blocks {
-						ret, ok := b.Instrs[len(b.Instrs)-1].(*ssa.Return)
-						if !ok {
-							continue
-						}
-						rv := resolve(ret.Results[idx])
-						if isZeroConst(rv) {
-							continue
-						}
-						n++
-						pc, pidx, ok := extractOf(rv)
-						isParse := ok && pidx == 0 && pc.Common().StaticCallee() != nil && pc.Common().StaticCallee().Name() == "ParseUint"
-						if !isParse || !derivesFromCallArgs(p, pc.Common().Args[0], func(v ssa.Value) bool {
-							dc, ok := v.(*ssa.Call)
-							return ok && dc.Common().IsInvoke() && dc.Common().Method.Name() == "Describe"
-						}) {
-							all = false
-						}
-					}
-					okProv = all && n > 0
-				}
-			}
-			if okProv {
-				res.ok("C15-R1", construct, p.pos(setCur.Pos()), "strconv.ParseUint of a part of resourcelock.Describe()")
-			} else {
-				res.bad("C15-R1", construct, p.pos(setCur.Pos()), "the revision the new leader starts from does not derive from the lock's description (engine timestamp)")
-			}
-		}
-	}
+	checkLeaderStart(p, r, res, "C15-R1")
 
 	// ---- R2 ----
 	for i, w := range e.fieldWrites(p, e.tsoF) {
@@ -659,4 +551,119 @@ func derivesFromCallArgs(p *Prog, v ssa.Value, pred func(ssa.Value) bool) bool {
 		return false
 	}
 	return rec(v, 0)
+}
+
+// checkLeaderStart: the leader-start callback seeds the revision counters from the lock's engine timestamp before it
+// raises the leader flag and before the started-leading hook runs.
+func checkLeaderStart(p *Prog, r *Roles, res *Result, rule string) {
+	var cb *ssa.Function
+	for _, f := range p.AllFuncs {
+		if isLeaderStartCallback(p, f) {
+			cb = f
+		}
+	}
+	if cb == nil {
+		res.und(rule, "leader-start callback", "-", "not found")
+	} else {
+		var setCur *ssa.Call
+		for _, c := range callsIn(cb) {
+			if cc, ok := c.(*ssa.Call); ok && r.is(c, r.BSetCur) {
+				setCur = cc
+			}
+		}
+		// leader flag writes: stores / atomic stores of a non-zero constant to a field of the election type inside the callback
+		var flagWrites []ssa.Instruction
+		for _, b := range cb.Blocks {
+			for _, ins := range b.Instrs {
+				switch x := ins.(type) {
+				case *ssa.Store:
+					if fa, ok := x.Addr.(*ssa.FieldAddr); ok && !isFreshObject(fa.X) {
+						if k, ok := x.Val.(*ssa.Const); ok && k.Value != nil && k.Value.String() != "false" && k.Value.String() != "0" {
+							flagWrites = append(flagWrites, x)
+						}
+					}
+				case *ssa.Call:
+					if n, ok := isAtomicCall(x); ok && strings.HasPrefix(n, "Store") {
+						if k, ok := x.Common().Args[1].(*ssa.Const); ok && k.Value != nil && k.Value.String() != "0" && k.Value.String() != "false" {
+							flagWrites = append(flagWrites, x)
+						}
+					}
+				}
+			}
+		}
+		construct := funcName(cb) + ": SetCurrentRevision before the leader flag"
+		switch {
+		case setCur == nil:
+			res.bad(rule, construct, p.pos(cb.Pos()), "the leader-start callback never seeds the revision counters: the new leader hands out revisions from its stale counter")
+		case len(flagWrites) == 0:
+			res.und(rule, construct, p.pos(cb.Pos()), "leader flag write not found in the callback")
+		default:
+			bad := false
+			for _, fw := range flagWrites {
+				if !instrDominates(setCur, fw) {
+					bad = true
+					res.bad(rule, construct, p.pos(fw.Pos()), "the leader flag is raised before (or without) SetCurrentRevision: a write admitted in between is stamped with a revision below what the store already contains")
+				}
+			}
+			if !bad {
+				res.ok(rule, construct, p.pos(setCur.Pos()), fmt.Sprintf("dominates %d flag write(s)", len(flagWrites)))
+			}
+		}
+		// started-leading hook: dynamic call of a func-typed field, must come after SetCurrentRevision
+		if setCur != nil {
+			construct = funcName(cb) + ": SetCurrentRevision before the started-leading hook"
+			n, bad := 0, false
+			for _, c := range callsIn(cb) {
+				if c.Common().StaticCallee() != nil || c.Common().IsInvoke() {
+					continue
+				}
+				if ld, ok := resolve(c.Common().Value).(*ssa.UnOp); ok {
+					if _, ok := ld.X.(*ssa.FieldAddr); ok {
+						n++
+						if !instrDominates(setCur, c.(ssa.Instruction)) {
+							bad = true
+							res.bad(rule, construct, p.pos(c.Pos()), "the started-leading hook (which opens the node for clients) runs before the revision counters are seeded")
+						}
+					}
+				}
+			}
+			if !bad && n > 0 {
+				res.ok(rule, construct, p.pos(setCur.Pos()), "hook call dominated by SetCurrentRevision")
+			}
+			// provenance of v
+			construct = funcName(cb) + ": seeded revision is parsed from Describe()"
+			okProv := false
+			if c, idx, ok := extractOf(argForSigParam(setCur, 0)); ok {
+				if g := c.Common().StaticCallee(); g != nil && g.Blocks != nil {
+					all, n := true, 0
+					for _, b := range g.Blocks {
+						ret, ok := b.Instrs[len(b.Instrs)-1].(*ssa.Return)
+						if !ok {
+							continue
+						}
+						rv := resolve(ret.Results[idx])
+						if isZeroConst(rv) {
+							continue
+						}
+						n++
+						pc, pidx, ok := extractOf(rv)
+						isParse := ok && pidx == 0 && pc.Common().StaticCallee() != nil && pc.Common().StaticCallee().Name() == "ParseUint"
+						if !isParse || !derivesFromCallArgs(p, pc.Common().Args[0], func(v ssa.Value) bool {
+							dc, ok := v.(*ssa.Call)
+							return ok && dc.Common().IsInvoke() && dc.Common().Method.Name() == "Describe"
+						}) {
+							all = false
+						}
+					}
+					okProv = all && n > 0
+				}
+			}
+			if okProv {
+				res.ok(rule, construct, p.pos(setCur.Pos()), "strconv.ParseUint of a part of resourcelock.Describe()")
+			} else {
+				res.bad(rule, construct, p.pos(setCur.Pos()), "the revision the new leader starts from does not derive from the lock's description (engine timestamp)")
+			}
+		}
+	}
+
 }
